@@ -36,7 +36,7 @@ PURE_FUNCS = {
     'type', 'iter', 'zip', 'enumerate', 'reversed', 'min', 'max', 'any', 'all', 'filter', 'map', 'range', 'repr',
     'frozenset', 'abs', 'sum', 'one', 'many', 'navigate_one', 'navigate_many', 'navigate_any', 'where_eq', 'order_by',
     'get_metaclass', 'get_metamodel', '_is_null', 'issubclass', 'callable', 'id', 'ord', 'chr', 'unicode', 'property',
-    'navigate_subtype', 'sort_reflexive', 'find_column',
+    'navigate_subtype', 'sort_reflexive', 'find_column', 'nav_one', 'nav_any', 'nav_many', 'nav_subtype', 'subtype',
 }
 PURE_METHODS = {
     'upper', 'lower', 'strip', 'lstrip', 'rstrip', 'format', 'join', 'split', 'get', 'keys', 'values', 'items',
